@@ -386,8 +386,9 @@ def check_followers(spec):
                 msgs.append(f"nesting: the follower {follower}'s note is {'missing from' if follower == 'macro' else 'unexpectedly in'} its directive")
         if decl == "member":
             mem = [c for c in stubs if c["stub"] == "py:method"]
-            if len(mem) != 1 or mem[0]["arg"].replace(" ", "") != "run_1(a)" or own_nodes(mem[0], nodes.note):
-                msgs.append(f"nesting: the member's entry is {[c['arg'] for c in mem]} (note inside: {bool(mem and own_nodes(mem[0], nodes.note))}), expected run_1(a) without a macro note")
+            mname = cmakegen.name_of(events[1], 1)      # (names come from a seed-rotated pool)
+            if len(mem) != 1 or mem[0]["arg"].replace(" ", "") != f"{mname}(a)" or own_nodes(mem[0], nodes.note):
+                msgs.append(f"nesting: the member's entry is {[c['arg'] for c in mem]} (note inside: {bool(mem and own_nodes(mem[0], nodes.note))}), expected {mname}(a) without a macro note")
         if not any(c["arg"].startswith("last_fn(") for c in top):
             msgs.append("structure: the last function lost its top-level entry")
     return {"viol": msgs, "obs": common.digest(r["page"] or ""), "nt": common.digest(spec), "cls": (msgs[0].split(":")[0] + " followers") if msgs else None}
